@@ -6,7 +6,7 @@ fake port), Clock.run against a scripted virtual clock (jitter, stalls, tempo ch
 wake-ups, exact-boundary dyadic scripts), MidiInputDevice._callback on message sequences under a virtual wall clock
 (gaps from microseconds to hours, time standing still / going backwards), the MidiInputDevice wired to a real Timeline
 (stop/start/songpos messages and user-level timeline.stop()/start()/reset() travelling Timeline -> clock_source and back,
-followed by further clock messages), each compared inside Coq
+followed by further clock messages), ONE clock run 2-4 times with virtual time passing while it is stopped, each compared inside Coq
 (vm_compute) with the model.  Oracle: closed forms in exact arithmetic (fractions.Fraction) from the property text."""
 from common import *
 import math
@@ -15,7 +15,7 @@ PROP = "C14"
 MAXRATE = 1920
 META = {
  "engine": "S-scheduler",
- "text": "Coq theorems (Props/C14.v, closed under the global context) prove, for ALL positive rates below 10^8 and all run lengths: after n timeline ticks a device has received exactly ceil(n*out/in) ticks (out | in: one tick on timeline tick 0 and then on every (in/out)-th, so every window of in/out ticks holds exactly one; in | out: exactly out/in per tick; any window of `in` timeline ticks = one beat holds exactly `out` device ticks, hence 24 MIDI clocks per beat), the code's round(pos, 8) > 1 test agrees with the exact comparison, a pair is refused on the first next() exactly when neither rate divides the other and never otherwise, a device without a rate gets one tick per tick; for the internal clock, for ANY non-decreasing sequence of clock readings (arbitrary lateness, stalls) the total number of ticks delivered after each wake-up is floor((t - t0)/delta) (none dropped or doubled), after a tempo change the ticks follow the new duration exactly from the next tick, and an external MIDI clock produces exactly one tick per clock message (start/stop/songpos 0 -> start/stop/reset, nothing else ticks) whatever the wall-clock readings the callback takes for its tempo estimate (any integers: equal, decreasing, microseconds or hours apart); on a steady clock the estimate is exactly 2.5/interval bpm. The models are tied to the repository on every run: make_clock_multiplier on every ordered dividing pair up to 1920 (exhaustive) and sampled non-dividing pairs, Timeline.tick with 1-3 devices incl. a MidiOutputDevice on a fake port, Clock.run on a scripted virtual clock, MidiInputDevice._callback with the time module it sees replaced by a scripted clock (13 time profiles); all compared inside Coq (vm_compute) and judged by an independent exact-arithmetic oracle that supplies the failing input. With the device wired to a real Timeline (Clock/MidiInWired.v: the callback composed with the Timeline's reactions, which call back into the device — Timeline.stop() -> clock_source.stop(), Timeline.start() -> clock_source.run()) the number of Timeline.tick() calls equals the number of clock messages after every event of ANY history of messages and user-level timeline.stop()/start()/reset() calls, and the k-th clock message carries the device ticks of the k-th tick of an uninterrupted timeline (C14_midi_wired_*); checked on every run against a real Timeline clocked by a MidiInputDevice on a fake port, with stop/start/songpos messages and user-level calls followed by further clock messages. Re-configuration after construction (Clock/Reconfig.v): when the timeline's rate has changed (clock source replaced by a Clock / DummyClock / MidiInputDevice of another PPQN, ticks_per_beat assigned) the devices are ticked exactly as on a timeline built at the new rate, send_clock switches never change the device.tick() calls and decide only whether a pulse reaches the port, and a replacing Clock made without a target delivers floor(elapsed / new tick duration) ticks whatever the old rate was (C14_reconfig_*, C14_send_clock_*, C14_replaced_clock); checked on every run on histories of ticks, rate changes, added / replaced devices and send_clock switches, on Clock.run scripts whose clock replaced another, and on a MIDI output switched on after it was attached.",
+ "text": "Coq theorems (Props/C14.v, closed under the global context) prove, for ALL positive rates below 10^8 and all run lengths: after n timeline ticks a device has received exactly ceil(n*out/in) ticks (out | in: one tick on timeline tick 0 and then on every (in/out)-th, so every window of in/out ticks holds exactly one; in | out: exactly out/in per tick; any window of `in` timeline ticks = one beat holds exactly `out` device ticks, hence 24 MIDI clocks per beat), the code's round(pos, 8) > 1 test agrees with the exact comparison, a pair is refused on the first next() exactly when neither rate divides the other and never otherwise, a device without a rate gets one tick per tick; for the internal clock, for ANY non-decreasing sequence of clock readings (arbitrary lateness, stalls) the total number of ticks delivered after each wake-up is floor((t - t0)/delta) (none dropped or doubled), after a tempo change the ticks follow the new duration exactly from the next tick, and an external MIDI clock produces exactly one tick per clock message (start/stop/songpos 0 -> start/stop/reset, nothing else ticks) whatever the wall-clock readings the callback takes for its tempo estimate (any integers: equal, decreasing, microseconds or hours apart); on a steady clock the estimate is exactly 2.5/interval bpm. The models are tied to the repository on every run: make_clock_multiplier on every ordered dividing pair up to 1920 (exhaustive) and sampled non-dividing pairs, Timeline.tick with 1-3 devices incl. a MidiOutputDevice on a fake port, Clock.run on a scripted virtual clock, MidiInputDevice._callback with the time module it sees replaced by a scripted clock (13 time profiles); all compared inside Coq (vm_compute) and judged by an independent exact-arithmetic oracle that supplies the failing input. With the device wired to a real Timeline (Clock/MidiInWired.v: the callback composed with the Timeline's reactions, which call back into the device — Timeline.stop() -> clock_source.stop(), Timeline.start() -> clock_source.run()) the number of Timeline.tick() calls equals the number of clock messages after every event of ANY history of messages and user-level timeline.stop()/start()/reset() calls, and the k-th clock message carries the device ticks of the k-th tick of an uninterrupted timeline (C14_midi_wired_*); checked on every run against a real Timeline clocked by a MidiInputDevice on a fake port, with stop/start/songpos messages and user-level calls followed by further clock messages. Re-configuration after construction (Clock/Reconfig.v): when the timeline's rate has changed (clock source replaced by a Clock / DummyClock / MidiInputDevice of another PPQN, ticks_per_beat assigned) the devices are ticked exactly as on a timeline built at the new rate, send_clock switches never change the device.tick() calls and decide only whether a pulse reaches the port, and a replacing Clock made without a target delivers floor(elapsed / new tick duration) ticks whatever the old rate was (C14_reconfig_*, C14_send_clock_*, C14_replaced_clock); checked on every run on histories of ticks, rate changes, added / replaced devices and send_clock switches, on Clock.run scripts whose clock replaced another, and on a MIDI output switched on after it was attached. One clock object run several times (Clock/Rerun.v, Props/C14Rerun.v): for ALL lists of runs with any pauses between them and the tempo possibly changed while stopped, every run delivers floor(elapsed since that run began / tick duration) ticks and the anchor left by earlier runs never matters (C14_rerun_*); checked on every run on scripts of 2-4 runs of one Clock / Timeline, stopped from a tick callback or from outside, with virtual time passing in between.",
  "note": "Partial in the DESIGN sense: threads, time.sleep and the OS scheduler are outside the model (the theorem covers every sequence of readings, not the mechanism producing them); float rounding of `pos`/`clock0` accumulation is validated by the correspondence runs (readings kept >= 2e-6 s from deadlines except in the exactly-representable dyadic stratum), not proved; warpers and jitter>0 are not modelled; the tempo estimate of MidiInputDevice is modelled exactly and compared with relative tolerance 1e-9 on strictly increasing readings only. Trusted: Coq kernel + VM; the Python harness; Python int //, % = Z.div/Z.modulo.",
 }
 HEADER = """From Isobar Require Import Base.Prelude Clock.Multiplier Clock.ClockRun Clock.MidiIn.
@@ -722,6 +722,275 @@ def check_clock(run):
         run.violation({"kind": "correspondence", "site": "Clock.run"}, {
             "broken": "correspondence model/implementation on Clock.run (C14_catch_up / C14_tempo no longer speak about this code)",
             "case": clock_payload(c), "counts_observed": counts[:80], "coq_term": terms[i][:3000], "python": clock_snippet(c)},
+            found_input=False)
+
+
+# ================================================================================================
+# 3b. ONE clock run several times: run, stop (from a tick callback / from outside), time passes, run again
+# ================================================================================================
+HEADER_RERUN = """From Isobar Require Import Base.Prelude Clock.Multiplier Clock.ClockRun Clock.Rerun.
+"""
+
+
+def gen_rerun_segment(rng, ref, t, cb, dyadic, with_changes, tempos, budget):
+    """the wake-ups of one run that begins at reading t (ref: the deadline bookkeeping anchored at t).  Returns
+    (readings, between, ref, total before the last wake-up) or None."""
+    readings, between = [t], {}
+    ref.step(t)
+    before_last = ref.total
+    n_read = rng.randint(3, 28)
+    for j in range(1, n_read + 1):
+        d = ref.dur
+        btw = None
+        if with_changes and rng.random() < 0.05:
+            btw = rng.choice(tempos)
+        if with_changes and rng.random() < 0.06:
+            cb[ref.total + rng.choice([0, 0, 1, 2, 5, rng.randint(0, 20)])] = rng.choice(tempos)
+        u = rng.random()
+        room = max(2, budget - ref.total)
+        if dyadic:
+            q = d / 4
+            if u < 0.45:
+                adv = q * rng.randint(0, 9)
+            elif u < 0.85:
+                adv = max(Fraction(0), ref.c0 + rng.randint(1, 6) * d - t)       # exactly on a deadline of the current grid
+            else:
+                adv = d * rng.randint(2, max(2, min(60, room))) + q * rng.randint(0, 3)
+        else:
+            base = Fraction(1, 10 ** 4)
+            if u < 0.08:
+                adv = Fraction(0)
+            elif u < 0.80:
+                adv = base + Fraction(int(rng.expovariate(1.0) * float(d) * rng.choice([0.05, 0.3, 1.0, 2.5]) * GRID), GRID)
+            else:
+                adv = base + d * Fraction(rng.randint(1000, 1000 * max(2, min(60, room))), 1000)       # a stall
+            adv = Fraction(int(adv * GRID), GRID)
+        t1 = t + adv
+        ok = False
+        for _ in range(8):
+            trial = ref.copy()
+            trial.cb = cb
+            mm = trial.step(t1, btw)
+            if dyadic or mm >= MARGIN:
+                ok = True
+                break
+            t1 += MARGIN * 3 / 2 + Fraction(rng.randint(0, 30), GRID)
+            t1 = Fraction(int(t1 * GRID), GRID)
+        if not ok:
+            return None
+        before_last = ref.total
+        ref = trial
+        t = t1
+        readings.append(t)
+        if btw is not None:
+            between[j] = btw
+    return readings, between, ref, before_last
+
+
+def gen_rerun_case(rng, kind):
+    dyadic = kind == "dyadic"
+    if dyadic:
+        tpb = rng.choice([32, 64, 256, 512, 1024])
+        tempos = [15, 30, 60, 120, 240, 480]
+        t0 = Fraction(rng.choice([0, 1024, 4096, 8])) + Fraction(rng.randint(0, 3), 4)
+    else:
+        tpb = rng.choice([24, 48, 96, 120, 480, 480, 960, rng.randint(1, 1920)])
+        tempos = TEMPOS + [rng.randint(30, 300)]
+        t0 = Fraction(rng.randint(0, 5000 * GRID), GRID)
+    tempo = rng.choice(tempos)
+    target, a, b, target_rate = rng.choice(["obj", "timeline"]), None, None, None
+    if kind == "ratio":
+        # the clock's own rate converter goes on where it was: target rate divides / is a multiple of the clock rate
+        target = "obj"
+        ds = [d for d in range(1, tpb + 1) if tpb % d == 0]
+        target_rate = rng.choice(ds) if rng.random() < 0.6 else tpb * rng.randint(1, 3)
+        a, b = target_rate, tpb
+    elif target == "obj":
+        target_rate = rng.choice([None, tpb])
+        if target_rate is not None:
+            a, b = tpb, tpb
+    with_changes = kind in ("tempo", "dyadic") and rng.random() < 0.7
+    n_seg = rng.choice([2, 2, 3, 3, 4])
+    cb, segs = {}, []
+    ref = RefClock(t0, tempo, tpb, a, b, cb)
+    t = t0
+    budget_each = 500 // n_seg
+    for k in range(n_seg):
+        pre = None
+        if k > 0:
+            # the time spent stopped: nothing, a fraction of a tick, a few ticks, seconds, minutes
+            d = ref.dur
+            u = rng.random()
+            if dyadic:
+                pause = rng.choice([Fraction(0), d / 4 * rng.randint(1, 7), d * rng.randint(1, 40), Fraction(rng.randint(1, 600)),
+                                    max(Fraction(0), ref.c0 + rng.randint(1, 9) * d - t)])
+            elif u < 0.1:
+                pause = Fraction(0)
+            elif u < 0.35:
+                pause = Fraction(int(d * rng.uniform(0.05, 3.0) * GRID), GRID)
+            elif u < 0.7:
+                pause = Fraction(int(d * rng.uniform(3.0, 3000.0) * GRID), GRID)
+            else:
+                pause = Fraction(rng.randint(1, 3600 * 1000), 1000)
+            t = t + pause
+            if kind != "plain" and rng.random() < 0.5:
+                pre = rng.choice(tempos)
+            ref = ref.copy()
+            ref.c0 = t                          # every run starts from "now"
+            if pre is not None:
+                ref.dur = delta(pre, tpb)
+        g = gen_rerun_segment(rng, ref, t, cb, dyadic, with_changes, tempos, ref.total + budget_each)
+        if g is None:
+            return None
+        readings, between, ref, before_last = g
+        stop_tick, spare = None, []
+        if ref.total > before_last and rng.random() < 0.5:
+            # this run is ended by clock.stop() / timeline.stop() from inside a tick of its last wake-up
+            stop_tick = rng.randint(before_last, ref.total - 1)
+            spare = [readings[-1] + ref.dur * Fraction(i, 2) for i in range(0, 7)]
+        segs.append({"pre_tempo": pre, "readings_exact": readings, "between": between, "stop_tick": stop_tick, "spare_exact": spare,
+                     "pause": None if k == 0 else pause})
+        t = readings[-1]
+    cb = {i: v for i, v in cb.items() if i < ref.total}
+    return {"kind": kind, "target": target, "target_rate": target_rate, "tempo": tempo, "tpb": tpb, "cb": cb, "segments": segs}
+
+
+def rerun_payload(c):
+    return {"target": c["target"], "target_rate": c["target_rate"], "tempo": c["tempo"], "tpb": c["tpb"],
+            "cb": {str(i): v for i, v in c["cb"].items()},
+            "segments": [{"pre_tempo": s["pre_tempo"], "readings": [float(t) for t in s["readings_exact"]],
+                          "between": {str(j): v for j, v in s["between"].items()}, "stop_tick": s["stop_tick"],
+                          "spare": [float(t) for t in s["spare_exact"]]} for s in c["segments"]]}
+
+
+def rerun_snippet(c):
+    return ("import json, subprocess; print(subprocess.run(['/venv/bin/python', 'harness/impl/c14_impl.py'], "
+            "input=json.dumps({'rerun': [%s]}), capture_output=True, text=True, env={'PYTHONPATH': '<repo>'}).stdout)" % json.dumps(rerun_payload(c)))
+
+
+def oracle_rerun(c, all_counts, code):
+    """independent judgement from the property text: EVERY run of the clock delivers floor(elapsed since that run began /
+    tick duration) ticks - the time the clock spent stopped is not caught up, nothing is lost.  Returns None or
+    (kind, detail, index of the run)."""
+    segs = c["segments"]
+    tpb, a = c["tpb"], c["target_rate"]
+    unit = (not truthy(a)) or a == tpb or c["target"] == "timeline"
+    if code != 0:
+        return ("clock-raises", "Clock.run ended with code %r in run %d" % (code, len(all_counts)), len(all_counts) - 1)
+    if len(all_counts) != len(segs):
+        return ("runs", "%d runs recorded for %d runs made" % (len(all_counts), len(segs)), 0)
+    base, cur, J = 0, c["tempo"], 0
+    for k, (s, counts) in enumerate(zip(segs, all_counts)):
+        ts = s["readings_exact"]
+        where = "run %d of the same clock%s: " % (k + 1, "" if k == 0 else " (stopped for %s s before it%s)" % (
+            float(s["pause"]), "" if s["pre_tempo"] is None else ", tempo set to %s meanwhile" % s["pre_tempo"]))
+        if s["pre_tempo"] is not None:
+            cur = s["pre_tempo"]
+        if len(counts) != len(ts):
+            return ("wakeups", where + "%d wake-ups for %d readings%s" % (
+                len(counts), len(ts), " (stop() was called from inside tick %d: the run must end with that wake-up)" % s["stop_tick"] if s["stop_tick"] is not None else ""), k)
+        if counts and counts[0] != base:
+            return ("tick-count", where + "%d ticks delivered on entry to run(), before any time has elapsed in this run (floor(0 / duration) = 0)" % (counts[0] - base), k)
+        if unit:
+            sub = {"readings_exact": ts, "tpb": tpb, "target_rate": a, "target": c["target"], "tempo": cur,
+                   "cb": {i - base: v for i, v in c["cb"].items() if i >= base}, "between": s["between"]}
+            v = oracle_clock(sub, [n - base for n in counts], 0)
+            if v:
+                return (v[0], where + v[1], k)
+        else:
+            d = delta(cur, tpb)
+            for j, (t, n) in enumerate(zip(ts, counts)):
+                want = E(J + (t - ts[0]) // d, a, tpb)
+                if n != want:
+                    return ("tick-count", where + "after wake-up %d (elapsed in this run %s s = %s tick durations; %d clock ticks in earlier runs) %d target ticks in all, "
+                            "the rate converter owes %d" % (j, float(t - ts[0]), float((t - ts[0]) / d), J, n, want), k)
+            J += (ts[-1] - ts[0]) // d
+        # the tempo in force when this run ended: the changes in the order they took effect
+        prev = base
+        for j, n in enumerate(counts):
+            if j in s["between"]:
+                cur = s["between"][j]
+            for i in sorted(c["cb"]):
+                if prev <= i < n:
+                    cur = c["cb"][i]
+            prev = n
+        base = counts[-1] if counts else base
+    return None
+
+
+def check_rerun(run):
+    rng = run.rng
+    n = 72 if run.tier == "quick" else 1200
+    kinds = ["plain"] * 4 + ["tempo"] * 4 + ["dyadic"] * 3 + ["ratio"] * 1
+    cases = []
+    while len(cases) < n:
+        c = gen_rerun_case(rng, kinds[len(cases) % len(kinds)])
+        if c is None:
+            run.discard("re-run script: no reading >= 2e-6 s away from every deadline found in 8 tries")
+            continue
+        cases.append(c)
+    res = run_sharded(run, "rerun", [rerun_payload(c) for c in cases], lambda p: sum(len(s["readings"]) for s in p["segments"]))
+    terms, meta = [], []
+    for c, r in zip(cases, res):
+        segs = c["segments"]
+        run.count(sum(len(s["readings_exact"]) for s in segs))
+        run.dist("rerun.%s.%s.%d-runs" % (c["kind"], c["target"], len(segs)))
+        for s in segs[1:]:
+            d_est = delta(c["tempo"], c["tpb"])
+            run.dist("rerun.pause.%s" % ("zero" if s["pause"] == 0 else "<1 initial tick duration" if s["pause"] < d_est else "<100 initial tick durations" if s["pause"] < 100 * d_est else ">=100 initial tick durations"))
+            if s["pre_tempo"] is not None:
+                run.dist("rerun.tempo-changed-while-stopped")
+        for s in segs:
+            run.dist("rerun.stopped-from-%s" % ("tick-callback" if s["stop_tick"] is not None else "outside"))
+        if c["cb"] or any(s["between"] for s in segs):
+            run.dist("rerun.tempo-changed-while-running")
+        run.nontrivial("rerun %r" % (rerun_payload(c),))
+        if "error" in r:
+            run.violation({"kind": "clock-raises", "site": "Clock.run (run again)"}, {
+                "case": rerun_payload(c), "observed": "unexpected %s" % r["error"], "python": rerun_snippet(c)})
+            continue
+        counts, code = r["counts"], r["code"]
+        run.cov["oracle_evaluations"] += sum(len(s["readings_exact"]) for s in segs)
+        verdict = oracle_rerun(c, counts, code)
+        if verdict:
+            k = verdict[2]
+            run.violation({"kind": verdict[0], "site": "Clock.run (run again)"}, {
+                "case": rerun_payload(c), "observed": verdict[1], "run": k + 1,
+                "counts_observed_per_run": [x[:40] for x in counts],
+                "oracle": "each run of a clock delivers floor(elapsed since THAT run began / tick duration) ticks after every wake-up; the time spent stopped is not caught up",
+                "python": rerun_snippet(c)})
+            continue
+        tpb = c["tpb"]
+        fr = [t for s in segs for t in s["readings_exact"]] + [delta(c["tempo"], tpb)] + [delta(v, tpb) for v in c["cb"].values()] + \
+             [delta(v, tpb) for s in segs for v in list(s["between"].values()) + ([s["pre_tempo"]] if s["pre_tempo"] is not None else [])]
+        D = 1
+        for x in fr:
+            D = D * x.denominator // math.gcd(D, x.denominator)
+        U = lambda x: int(x * D)
+        dl = lambda v: "None" if v is None else "(Some %s)" % zlit(U(delta(v, tpb)))
+        seg_lits = []
+        for s in segs:
+            ts = s["readings_exact"]
+            rds = "[" + "; ".join("(%s, %s)" % (zlit(U(t)), dl(s["between"].get(j))) for j, t in enumerate(ts)) + "]"
+            seg_lits.append("mkSeg %s %s %s" % (dl(s["pre_tempo"]), zlit(U(ts[0])), rds))
+        out = None if c["target"] == "timeline" else c["target_rate"]
+        terms.append("rerun_ok %s %s %s %s [%s] [%s] %s" % (
+            rlit(out), rlit(tpb), plist(sorted((i, U(delta(v, tpb))) for i, v in c["cb"].items())), zlit(U(delta(c["tempo"], tpb))),
+            "; ".join(seg_lits), "; ".join(zlist(x) for x in counts), zlit(code)))
+        meta.append((c, counts))
+    if cases:
+        run.sample({"rerun_script": {k: v for k, v in rerun_payload(cases[0]).items() if k != "segments"},
+                    "runs": [{"first_readings": s["readings"][:4], "pre_tempo": s["pre_tempo"], "stop_tick": s["stop_tick"]} for s in rerun_payload(cases[0])["segments"]],
+                    "counts": [x[:5] for x in res[0].get("counts", [])]})
+    t0 = time.time()
+    failing = run.coq_failing(HEADER_RERUN, terms, chunk=6, jobs=12)
+    run.cov["coq_seconds_rerun"] = round(time.time() - t0, 1)
+    run.cov["traces_validated_against_impl"] += len(terms) - len(failing)
+    for i in failing:
+        c, counts = meta[i]
+        run.violation({"kind": "correspondence", "site": "Clock.run (run again)"}, {
+            "broken": "correspondence model/implementation on a Clock run several times (C14_rerun_* no longer speak about this code)",
+            "case": rerun_payload(c), "counts_observed_per_run": [x[:40] for x in counts], "coq_term": terms[i][:3000], "python": rerun_snippet(c)},
             found_input=False)
 
 
@@ -1676,7 +1945,7 @@ def check_reconfig(run):
 
 def check(run):
     for name, f in (("multiplier", check_multiplier), ("timeline", check_timeline), ("clock", check_clock), ("midi", check_midi),
-                    ("midi_wired", check_midi_wired), ("reconfig", check_reconfig)):
+                    ("midi_wired", check_midi_wired), ("reconfig", check_reconfig), ("rerun", check_rerun)):
         t0 = time.time()
         f(run)
         run.cov["seconds_" + name] = round(time.time() - t0, 1)
